@@ -225,6 +225,13 @@ def s_two(rng, depth, variant=None):
         {"targetContracts": [A, B], "excludeContracts": [A]},
         {"excludeSelectors": [(B, [sel("zero()")])], "targetSelectors": [(B, [sel("zero()"), sel("bump()")])]},
         {"excludeContracts": [A, B], "targetSelectors": [(B, [sel("bump()")]), (A, a_sels[:1])]},
+        # several FuzzSelector items for the same contract (targetSelector()/excludeSelector() called more than once: forge-std
+        # appends an item per call, Foundry honours the union), interleaved with another contract's
+        {"targetSelectors": [(B, [sel("bump()")]), (A, a_sels[:1]), (B, [sel("zero()")])]},
+        {"targetSelectors": [(B, [sel("zero()")]), (B, [sel("bump()")])]},
+        {"excludeSelectors": [(B, [sel("zero()")]), (A, a_sels[:1]), (B, [sel("bump()")])]},
+        {"excludeSelectors": [(A, a_sels[:1]), (B, [sel("zero()")]), (A, a_sels[1:2] or a_sels[:1])], "targetContracts": [A, B]},
+        {"targetSelectors": [(A, a_sels[:1]), (B, [sel("bump()")]), (A, a_sels[-1:])], "excludeContracts": [B]},
     ])
     return Scenario("InvTwo", [a, b], invs, filters=dict(flt), kind="two")
 
@@ -777,7 +784,7 @@ def correspond(ctx):
     items.append(make_item(1, TEMPLATES.index(s_clock), 2, "roll"))
     # directed: every filter setting of the two-target template (incl. one contract in several filters at once), and the
     # sender settings with an address in both lists
-    n_two = 19
+    n_two = 24
     for v in range(n_two):
         items.append(make_item(1000 + v, TEMPLATES.index(s_two), 2, variant=v))
     for v in (6, 7):
@@ -798,7 +805,7 @@ def correspond(ctx):
     for v in range(6):
         items.append(make_item(4000 + v, TEMPLATES.index(s_symmap), 2 if v < 4 else (1 + v % 2 * 2), variant=v))
     n_directed = len(items)
-    n = ctx.scale(14, 390)
+    n = ctx.scale(10, 390)
     for i in range(n):
         t = i % len(TEMPLATES)
         depth = [1, 2, 2, 0, 2, 1, 3][i % 7]
